@@ -612,7 +612,7 @@ def run(ctx, groups, n_each):
     cases = []
     if "runner" in groups:
         import py_runner_cases  # noqa: F401 - registers GENS["runner"]
-    if "simdispatch" in groups or "logger" in groups or "config" in groups or "jsonrandom" in groups or "getters" in groups or "eventsetup" in groups:
+    if "simdispatch" in groups or "logger" in groups or "config" in groups or "jsonrandom" in groups or "getters" in groups or "eventsetup" in groups or "registry" in groups:
         import py_sim_cases  # noqa: F401 - registers GENS["simdispatch"]
     for g in groups:
         rng = ctx.rng("pycode", g)
